@@ -21,7 +21,7 @@ class ObsWorld:
         self.Watch = TRef("Watch", self.WS)
         self.Handler = TRef("Handler", self.HS, methods={"dispatch": self.m_dispatch})
         self.Emitter = TRef("Emitter", self.ES, attrs={"watch": lambda ex, r: self.Watch.wrap(self.watch_of(r.t))},
-                            methods={"start": self.m_estart, "stop": self.m_estop, "join": self.m_ejoin})
+                            methods={"start": self.m_estart, "stop": self.m_estop, "join": self.m_ejoin, "is_alive": self.m_ealive})
         self.Event = TRef("FsEvent", self.EvS)
         self.HSet = TSet(self.Handler)
         self.TH = TDict(self.Watch, self.HSet, default=lambda: self.HSet.empty())
@@ -36,6 +36,14 @@ class ObsWorld:
             raise Raise(VExc("OSError"), "emitter.start()")
         ex.ghost["started"] = VSet(z3.Store(ex.ghost["started"].t, r.t, True), self.Emitter)
         return None
+
+    def m_ealive(self, ex, r, args, kw, node):
+        """Thread.is_alive(): True only between the thread's start and its end.  False does NOT mean 'never started':
+        BaseObserver.start() starts the emitters without the registry lock, so an emitter may be past on_thread_start()
+        but not yet alive - it still has to be told to stop"""
+        a = ex.fresh_term(z3.BoolSort(), "emitter_is_alive")
+        ex.assume(z3.Implies(a, z3.And(ex.ghost["started"].t[r.t], z3.Not(ex.ghost["joined"].t[r.t]))))
+        return VBool(a)
 
     def m_estop(self, ex, r, args, kw, node):
         ex.ghost["stopped"] = VSet(z3.Store(ex.ghost["stopped"].t, r.t, True), self.Emitter)
